@@ -235,6 +235,13 @@ def name_covariates(pop, reverse=False):
 
 def controller_posterior(case, df, keys):
     m, oo = mech_model(case, for_controller=True)
+    if case['model'] == 'lib1':
+        # (the user simulated the model before handing it over -- the usual way to
+        # synthetic data -- at the very values the posterior is evaluated at later)
+        for k_ in (1, 0):
+            xs_ = vals.reals('c14.x%d' % k_, m.n_parameters() + 1, 0.4, 1.6,
+                             case['seed'])
+            m.simulate(list(xs_[:m.n_parameters()]), [0.5, 1.0])
     if case.get('obs_rename'):
         oo = {out: case['obs_rename'].get(name, name) for out, name in oo.items()}
     if case.get('no_map'):
@@ -410,6 +417,11 @@ def w_case(case):
             outcome.append(a)
         sa, ga = post.evaluateS1(x)
         sb, gb = hand.evaluateS1(x)
+        if not tol.close(sa, a, 1e-6, 1e-8):
+            viol.append({'sub': 's1_score', 'message': 'the score returned with the '
+                         'sensitivities differs from the plain evaluation (%s, '
+                         'individual %s)' % (lab, target), 'expected': a,
+                         'observed': sa, 'behaviour': 's1_score'})
         # (the plain call after the call with sensitivities is the same number as
         # the plain call before it)
         a2 = post(x)
@@ -643,6 +655,18 @@ def build(tier, seed):
         inds = [{'id': 1, 'obs': obs_c},
                 {'id': 2, 'obs': coincide[(k_ + 1) % len(coincide)]}]
         for (bo, it) in orders(2, 'quick'):
+            for pop in (None, pops['toy2'][0]):
+                (ind_cases if pop is None else hier_cases).append({
+                    'model': 'toy2', 'inds': inds, 'id_type': 'int',
+                    'block_order': bo, 'interleave': it, 'dosing': False,
+                    'extras': {}, 'fix': None, 'pop': pop, 'cov_names': [],
+                    'pop_first': True, 'seed': seed})
+    # an individual without any measurement of the FIRST output (the second output
+    # has its own error parameters)
+    for n in (2, 3):
+        inds = [dict(i_) for i_ in individuals(n, True, False, False, seed)]
+        inds[0] = dict(inds[0], obs=dict(inds[0]['obs'], A=[]))
+        for (bo, it) in orders(n, 'quick')[:2]:
             for pop in (None, pops['toy2'][0]):
                 (ind_cases if pop is None else hier_cases).append({
                     'model': 'toy2', 'inds': inds, 'id_type': 'int',
